@@ -104,6 +104,19 @@ func (prop) Run(t *testing.T, s *sim.Sim, res *runner.Result) {
 			{
 				acts = append(acts, sim.Action{Key: "the name generator repeats names it has handed out before", Weight: 1, Run: func() { kit.RepeatNames(); w.S.Probe("generated-names-repeat") }})
 			}
+			// somebody deletes a bound XR out of band: it lingers, terminating, on its
+			// finalizer while its claim is alive and keeps being reconciled
+			for _, xr := range w.XRObjects() {
+				xr := xr
+				if xr.GetDeletionTimestamp() != nil {
+					continue
+				}
+				acts = append(acts, sim.Action{Key: "somebody deletes XR " + xr.GetName(), Weight: 1, Run: func() {
+					if w.Direct.Delete(context.Background(), xr.DeepCopy()) == nil {
+						w.S.Probe("bound-xr-deleted-out-of-band")
+					}
+				}})
+			}
 			for _, k := range w.Store.GCCandidates() {
 				k := k
 				acts = append(acts, sim.Action{Key: "k8s-gc " + k.String(), Weight: 6, Run: func() { w.Store.GCStep(k) }})
